@@ -98,3 +98,20 @@ def content_parts(data):
             for ty2, p2, _ in rels_of(path):
                 if ty2 in ('header', 'footer', 'footnotes', 'endnotes', 'comments'): out.append((ty2, p2))
     return out
+
+
+def own_rels(data, part):
+    """Id -> Target of the part's own relationships file (OPC: <dir>/_rels/<name>.rels), {} if absent"""
+    z = zipfile.ZipFile(io.BytesIO(data))
+    d, b = posixpath.split(part)
+    rp = posixpath.join(d, '_rels', b + '.rels')
+    if rp not in z.namelist(): return {}
+    out = {}
+    for r in etree.fromstring(z.read(rp)):
+        if isinstance(r.tag, str): out[r.get('Id')] = r.get('Target')
+    return out
+
+
+def rattr(e, name):
+    u = e.nsmap.get('r')
+    return e.get(f'{{{u}}}{name}') if u else None
